@@ -138,7 +138,8 @@ def check(run, driver):
         DC.compare_with_model(run, "coded-replay", case, o, r["ok"], names)
         run.traces += 1
     # ---------------------------------------------------------------- (b) real data, real estimators
-    from causationentropy.core.discovery import discover_network
+    from common import EntryPoints
+    discover_network = EntryPoints("discover_network", "causationentropy.core.discovery", "causationentropy.core", "causationentropy")   # every public path, in turn
     from causationentropy.core.information.conditional_mutual_information import conditional_mutual_information as cmi_fn
 
     plans = []
